@@ -86,6 +86,22 @@ def scenarios(repo):
     sc.append(("scan_mod_tests_mv", "rscan", MODRULES["tests"], ["mv=1"]))
     sc.append(("compile_ext", "compile", EXT, EXTS))
     # base64 with wide / ascii wide: a small rule of its own so that the quick tier fails EVERY allocation of it (N <= 300)
+    # one small rule per string kind that takes its own allocation path in the compiler (small enough for every k in the quick tier)
+    SMALL = {
+        "hex_masked_hi": 'rule s { strings: $a = { 6? 62 63 64 } condition: $a }',
+        "hex_masked_lo": 'rule s { strings: $a = { 61 ?2 63 64 } condition: $a }',
+        "hex_alt": 'rule s { strings: $a = { 61 62 ( 63 64 | 6? 65 | 66 ) 67 } condition: $a }',
+        "text_nocase": 'rule s { strings: $a = "ab1d" nocase condition: $a }',
+        "text_wide": 'rule s { strings: $a = "abcd" wide ascii nocase condition: $a }',
+        "text_xor": 'rule s { strings: $a = "abcd" xor(1-3) condition: $a }',
+        "text_xor_wide": 'rule s { strings: $a = "abcd" xor(1-2) wide ascii condition: $a }',
+        "text_b64": 'rule s { strings: $a = "hello" base64 condition: $a }',
+        "regex_class": 'rule s { strings: $a = /ab[c-f]{2,3}[^x]z/ $b = /h[ae]l+o\\s\\w+/ nocase condition: any of them }',
+        "regex_jump": 'rule s { strings: $a = /abcd.{1,3}ef/ condition: $a }',
+    }
+    for nm, txt in SMALL.items():
+        sc.append(("compile_small_" + nm, "compile", txt, []))
+    sc.append(("compile_regex_dot", "compile", 'rule s { strings: $a = /a.cd/ $b = { 6? 7? 63 64 } condition: any of them }', []))
     sc.append(("compile_b64wide", "compile", 'rule b { strings: $e = "hello world" base64 wide $f = "abcd" base64wide ascii wide condition: any of them }', []))
     files = {"pe": "file=" + os.path.join(d, "tiny"), "elf": "file=" + os.path.join(d, "elf_with_imports"), "macho": "file=" + os.path.join(d, "tiny-universal"),
              "dex": "blob=dex", "dotnet": "file=" + os.path.join(d, "0ca09bde7602769120fadc4f7a4147347a7a97271370583586c9e587fd396171")}
@@ -127,6 +143,11 @@ rule e5 { strings: $e = /ab.{1,3}ef/ $f = { 65 66 } condition: $e and $f }'''
     for nm, txt in (("a", EOB1), ("b", EOB2)):
         sc.append(("scan_eob_" + nm, "scan", txt, [eobd]))
         sc.append(("rscan_eob_" + nm, "rscan", txt, [eobd]))
+    # notebooks that GROW during the scan: several thousand match records (matches notebook), more than 512 iterators
+    # (iterator notebook of the VM); a single failing page allocation must end the scan with an error, never corrupt the heap
+    sc.append(("scan_many_matches", "scan", 'rule mm { strings: $a = "abcd" condition: #a > 30000 }', ["datarep=%s*32768" % b"abcd".hex()]))
+    sc.append(("rscan_many_matches", "rscan", 'rule mm { strings: $a = "abcd" $b = /ab.d/ condition: #a > 30000 and #b > 30000 }', ["datarep=%s*32768" % b"abcd".hex()]))
+    sc.append(("scan_many_iterators", "rscan", 'rule mi { condition: for all i in (1..1300) : ( for any j in (1..2) : ( j == 1 ) ) }', []))
     for m, txt in MODRULES.items():
         sc.append(("scan_mod_" + m, "scan" if m in ("pe", "math", "hash") else "rscan", txt, [files[m]] if m in files else []))
     sc.append(("scan_mod_pe_imports", "rscan", MODRULES["pe"], ["file=" + os.path.join(d, "pe_imports")]))
@@ -356,7 +377,7 @@ def run(tier, replay=None):
         if replay and "k" in replay:
             ks1 = [replay["k"]] if replay.get("mode", 1) == 1 else []
             ks2 = [replay["k"]] if replay.get("mode", 1) == 2 else []
-        elif tier == "quick" and N > 300:
+        elif tier == "quick" and N > 300 and not (s[0].startswith("compile_small_") and N <= 700):
             stride = max(1, N // 110)
             ks1 = sorted(set(list(range(1, 40)) + list(range(1, N + 1, stride)) + [r.randint(1, N) for _ in range(60)] + [N - 2, N - 1, N]))
             ks2 = sorted(set([r.randint(1, N) for _ in range(40)] + list(range(1, N + 1, max(1, N // 25)))))
